@@ -1,6 +1,7 @@
 mod direct;
 mod dump;
 mod expect;
+mod gstd;
 mod pool;
 mod props;
 mod proto;
@@ -62,10 +63,12 @@ fn main() {
                 eprintln!("unknown property {id}");
                 std::process::exit(2)
             };
-            let code = match replay {
+            // a panic of the harness itself is harness trouble (exit 2), never a verdict
+            let code = std::panic::catch_unwind(std::panic::AssertUnwindSafe(|| match replay {
                 Some(p) => runner::run_replay(prop.as_ref(), &p),
                 None => runner::run_check(prop.as_ref(), tier, seed),
-            };
+            }))
+            .unwrap_or(2);
             std::process::exit(code)
         }
         _ => usage(),
